@@ -125,7 +125,7 @@ func newEncSpec(rng *mon.RNG, fixedDoc bool) *encSpec {
 			s.decSrc = -1
 		}
 	}
-	if rng.Chance(1, 3) {
+	if rng.Chance(1, 2) {
 		s.cons = rng.PickInt(512, 4096, 30000, 65536, 100000)
 	}
 	s.wrapD = pickDelay(rng)
@@ -293,8 +293,14 @@ func (s *encSpec) consume(c *gctx, r io.Reader) ([]byte, error) {
 	if s.cons == 0 || !c.conc {
 		return io.ReadAll(r)
 	}
+	// a slow consumer: kit's stream goroutine sits in its pipe write, holding its
+	// pooled segment buffer, while the other goroutines of the round run
 	var out []byte
 	buf := make([]byte, s.cons)
+	if s.consD.kind != 0 {
+		c.count("enc.slow_consumer_streams", 1)
+	}
+	c.pause(s.consD)
 	for i := 0; ; i++ {
 		n, err := r.Read(buf)
 		out = append(out, buf[:n]...)
